@@ -273,7 +273,7 @@ pub fn subs() -> Vec<Box<dyn DynSub>> {
 }
 
 pub fn run(ctx: &Ctx) {
-    let n = ctx.n(6_000_000, 100_000_000);
+    let n = ctx.n(6_000_000, 300_000_000);
     ctx.run_prop(&Round, n);
     ctx.run_prop(&Subsec, n / 2);
     ctx.run_prop(&LeapNoPanic, n / 6);
